@@ -400,6 +400,29 @@ def m_int_literal(draw, ir):
         p["default"] = draw(st.sampled_from(vals))
 
 
+def m_mixed_literal(draw, ir):
+    """Literal whose members have different Python types and no default: the scalar type has to be chosen from a set."""
+    p = _ensure_param(draw, ir)
+    pool = [draw(st.integers(0, 9)), draw(st.sampled_from((0.5, 2.5, 1.25))), draw(st.sampled_from(STR_WORDS)), True]
+    vals = draw(st.lists(st.sampled_from(pool), min_size=2, max_size=3, unique_by=lambda v: type(v).__name__))
+    p["typ"] = norm_type("Literal[%s]" % ", ".join(repr(v) for v in vals))
+    if draw(st.booleans()):
+        p.pop("default", None)
+    elif "default" in p:
+        p["default"] = vals[0]
+
+
+SPACED = ("nearest neighbour", "bilinear interpolation", "so long", "two words", "area average of pixels")
+
+
+def m_spaced_literal(draw, ir):
+    """Literal of strings that contain spaces (a type string with quoted text a wrapper may break inside), with a default."""
+    p = _ensure_param(draw, ir)
+    vals = draw(st.lists(st.sampled_from(SPACED), min_size=2, max_size=5, unique=True))
+    p["typ"] = norm_type("Literal[%s]" % ", ".join(repr(v) for v in vals))
+    p["default"] = draw(st.sampled_from(vals))
+
+
 def m_single_literal(draw, ir):
     p = _ensure_param(draw, ir)
     v = draw(st.sampled_from(STR_WORDS))
@@ -596,6 +619,13 @@ def param_tags(p, prev_has_default=False):
             t.add("union_with_str")
         if re.search(r"Literal\[[^,\]]*\]", typ):
             t.add("single_literal")
+        if "Literal" in names and re.search(r"'[^']* [^']*'", typ):
+            t.add("spaced_literal")
+        try:
+            if "Literal" in names and len({type(n.value).__name__ for n in ast.walk(ast.parse(typ, mode="eval")) if isinstance(n, ast.Constant)}) > 1:
+                t.add("mixed_literal")
+        except SyntaxError:
+            pass
         if len(typ) > 90:
             t.add("long_type")
         try:
